@@ -116,6 +116,7 @@ structure St where
   ioCount : Nat := 0
   faultAt : Option Nat := none     -- absolute index of the failing access
   faultEvery : Bool := false
+  faultCount : Nat := 1            -- number of consecutive accesses that fail, starting at `faultAt`
   faultsFired : Nat := 0
   clock : DateTime := {}
   mem : Mem := {}
@@ -154,7 +155,7 @@ inductive Res (α : Type) where
 def St.tick (s : St) : Bool × St :=
   let k := s.ioCount
   let fail := match s.faultAt with
-    | some f => k == f || (s.faultEvery && k ≥ f)
+    | some f => (decide (k ≥ f) && decide (k < f + s.faultCount)) || (s.faultEvery && k ≥ f)
     | none => false
   (fail, { s with ioCount := k + 1, faultsFired := s.faultsFired + (if fail then 1 else 0) })
 
